@@ -224,6 +224,25 @@ func (fc *FuncCtx) ReachingDefs(at int, obj types.Object) []int {
 		isDef[d] = true
 	}
 	var out []int
+	// one search from the entry that carries "the last definition crossed" next to the flag
+	// values: a definition reaches only along a path the function's own flag tests allow from
+	// the entry on (an error set before the definition still decides the test after it)
+	gh := &ghostT{eff: map[int]int64{}, at: at, vals: map[int64]bool{}}
+	for i, d := range defs {
+		gh.eff[d] = flagIntBase + int64(i)
+	}
+	g.reachGhost([]int{g.Entry}, nil, nil, true, gh)
+	if !gh.failed {
+		if gh.vals[flagUnknown] {
+			out = append(out, g.Entry)
+		}
+		for i, d := range defs {
+			if gh.vals[flagIntBase+int64(i)] {
+				out = append(out, d)
+			}
+		}
+		return out
+	}
 	if reachesWithoutDef(g, g.Entry, at, isDef) {
 		out = append(out, g.Entry)
 	}
@@ -241,6 +260,20 @@ func reachesWithoutDef(g *Graph, from, at int, isDef map[int]bool) bool {
 	// tests exclude does not reach
 	r := g.ReachAfter(from, func(v *Vertex) bool { return isDef[v.ID] && v.ID != at }, nil)
 	return r[at]
+}
+
+// PassesBefore: along every path from the entry that the function's own flag tests allow, once a
+// vertex of from has been crossed a vertex of through is crossed before the path arrives at to.
+func (fc *FuncCtx) PassesBefore(from, through []int, to int) bool {
+	gh := &ghostT{eff: map[int]int64{}, at: to, vals: map[int64]bool{}}
+	for _, v := range from {
+		gh.eff[v] = flagIntBase + 1
+	}
+	for _, v := range through {
+		gh.eff[v] = flagIntBase + 2
+	}
+	fc.G.reachGhost([]int{fc.G.Entry}, nil, nil, true, gh)
+	return !gh.failed && !gh.vals[flagIntBase+1]
 }
 
 // SoleDef reports whether def is the only definition of obj reaching vertex at.
